@@ -170,8 +170,10 @@ int process_tarball(sqfs_dir_iterator_t *it, sqfs_writer_t *sqfs)
 		ret = it->next(it, &ent);
 		if (ret > 0)
 			break;
-		if (ret < 0)
+		if (ret < 0) {
+			sqfs_perror("reading tar archive", NULL, ret);
 			return -1;
+		}
 
 		if (ent->mtime < 0)
 			ent->mtime = 0;
